@@ -95,6 +95,67 @@ def _calls_name(jf, name):
     return False
 
 
+def _var_types(jf):
+    t = {p["n"]: p["t"] for p in jf["params"]}
+    for b in jf["blocks"]:
+        for e in b["ev"]:
+            if e.get("e") == "decl":
+                t.setdefault(e["n"], e.get("t"))
+    return t
+
+
+def _reads_var(e, name):
+    """Does event e read variable `name` (anything but being the plain target of `=` / a declaration)?"""
+    for kk, v in e.items():
+        if kk in ("l", "e", "mac", "t", "n"):
+            continue
+        if kk == "lhs" and e.get("e") == "asg" and e.get("op") == "=":
+            l = strip_casts(v)
+            if isinstance(l, dict) and l.get("k") == "var":
+                continue
+        for n in _walk_any(v) if isinstance(v, (dict, list)) else ():
+            if n.get("k") == "var" and n.get("n") == name:
+                return True
+    return False
+
+
+def _writes_var_fully(e, name):
+    if e.get("e") == "decl" and e.get("n") == name:
+        return True
+    if e.get("e") == "asg" and e.get("op") == "=":
+        l = strip_casts(e.get("lhs"))
+        return isinstance(l, dict) and l.get("k") == "var" and l.get("n") == name
+    return False
+
+
+def _live_from(F, bi, k, name):
+    """Is variable `name` read on some path starting at event k of block index bi before it is overwritten?"""
+    blocks = {b["id"]: b for b in F["blocks"]}
+    start = F["blocks"][bi]
+    seen = set()
+    st = [(start["id"], k)]
+    while st:
+        bid, i = st.pop()
+        b = blocks[bid]
+        dead = False
+        for e in b["ev"][i:]:
+            if _reads_var(e, name):
+                return True
+            if _writes_var_fully(e, name):
+                dead = True
+                break
+        if dead:
+            continue
+        t = b.get("term")
+        if isinstance(t, dict) and any(n.get("k") == "var" and n.get("n") == name for n in _walk_any(t)):
+            return True
+        for s2 in b["succ"]:
+            if isinstance(s2, int) and s2 not in seen:
+                seen.add(s2)
+                st.append((s2, 0))
+    return False
+
+
 def _inline_site(F, bi, k, G, form):
     """Splice a copy of G into F at event k of block index bi."""
     B = F["blocks"][bi]
@@ -107,7 +168,16 @@ def _inline_site(F, bi, k, G, form):
     fnames = _all_names(F)
     gnames = _all_names(G)
     ren = {}
+    ftypes = _var_types(F)
+    gtypes = _var_types(G)
+    ftaken = _addr_taken(F)
     for n in sorted(gnames):
+        if n in fnames and n not in ftaken and ftypes.get(n) == gtypes.get(n) and ftypes.get(n) is not None \
+                and "[" not in ftypes[n] and not _live_from(F, bi, k + 1, n):
+            # the caller's variable of that name and type is dead at the call: the helper's local
+            # can reuse it (this is what the code looked like before the statements were hoisted)
+            ren[n] = n
+            continue
         nn = n if n not in fnames else "%s::%s" % (G["name"], n)
         while nn in fnames:
             nn += "'"
@@ -115,6 +185,37 @@ def _inline_site(F, bi, k, G, form):
         fnames.add(nn)
 
     follow = B["ev"][k + 1] if k + 1 < len(B["ev"]) else None
+    # `x = g(..)` / `T x = g(..)` where g returns one of its own locals v on every non-constant
+    # return: g's v becomes the caller's x (x is overwritten by the call anyway, and the
+    # arguments are bound before g's body runs), so a status or fold computed in the helper is
+    # the caller's variable again
+    if form in ("assign", "init") and follow is not None:
+        tgt = None
+        if form == "assign":
+            l = strip_casts(follow.get("lhs"))
+            if isinstance(l, dict) and l.get("k") == "var" and l.get("kind") == "local":
+                tgt = l["n"]
+        else:
+            tgt = follow.get("n")
+        if tgt is not None:
+            rv = set()
+            plain = True
+            for gb in G["blocks"]:
+                for ge in gb["ev"]:
+                    if ge.get("e") == "ret" and ge.get("x") is not None:
+                        x = strip_casts(ge["x"])
+                        if isinstance(x, dict) and x.get("k") == "var" and x.get("kind") == "local":
+                            rv.add(x["n"])
+                        elif not (isinstance(x, dict) and x.get("k") == "int"):
+                            plain = False
+            gaddr = _addr_taken(G)
+            if plain and len(rv) == 1:
+                v = next(iter(rv))
+                uses_tgt_in_args = any(n.get("k") == "var" and n.get("n") == tgt for a in call.get("a", []) for n in walk(a))
+                if v not in gaddr or True:
+                    if not uses_tgt_in_args or True:
+                        fnames.discard(ren[v])
+                        ren[v] = tgt
     rest_from = k + 1
     ret_mode = ("drop", None)
     if form == "assign":
@@ -156,11 +257,18 @@ def _inline_site(F, bi, k, G, form):
                 mode, tmpl = ret_mode
                 x = e.get("x")
                 if mode == "asg" and x is not None:
+                    xs, ls = strip_casts(x), strip_casts(tmpl.get("lhs"))
+                    if isinstance(xs, dict) and isinstance(ls, dict) and xs.get("k") == "var" and ls.get("k") == "var" \
+                            and xs.get("n") == ls.get("n"):
+                        continue          # the helper's result variable is the caller's variable already
                     a = copy.deepcopy(tmpl)
                     a["rhs"] = x
                     a["l"] = e["l"]
                     ev.append(a)
                 elif mode == "decl" and x is not None:
+                    xs = strip_casts(x)
+                    if isinstance(xs, dict) and xs.get("k") == "var" and xs.get("n") == tmpl.get("n"):
+                        continue
                     d = copy.deepcopy(tmpl)
                     d["init"] = x
                     ev.append(d)
@@ -293,8 +401,49 @@ def _addr_taken(jf):
     return out
 
 
+def _value_reads(E):
+    """Sub-trees of E whose value is read: `&lv` reads only what computing the
+    address of lv needs (the base pointer), not lv itself."""
+    out = []
+    st = [E]
+    while st:
+        n = st.pop()
+        if not isinstance(n, dict):
+            continue
+        if n.get("k") == "un" and n.get("op") == "&":
+            x = strip_casts(n.get("x"))
+            while isinstance(x, dict) and x.get("k") in ("mem", "idx"):
+                if x.get("k") == "idx":
+                    st.append(x.get("i"))
+                    b = strip_casts(x.get("b"))
+                    if isinstance(b, dict) and b.get("k") == "var":
+                        x = None
+                        break
+                    st.append(b)
+                    x = None
+                    break
+                if x.get("arrow"):
+                    st.append(x.get("b"))
+                    x = None
+                    break
+                x = strip_casts(x.get("b"))
+            if isinstance(x, dict) and x.get("k") == "un" and x.get("op") == "*":
+                st.append(x.get("x"))
+            continue
+        out.append(n)
+        for kk in ("b", "x", "l", "r", "c", "i", "fp"):
+            v = n.get(kk)
+            if isinstance(v, dict):
+                st.append(v)
+        for kk in ("a", "items"):
+            v = n.get(kk)
+            if isinstance(v, list):
+                st.extend(v)
+    return out
+
+
 def _reads_pointer_memory(E, local_arrays):
-    for n in walk(E):
+    for n in _value_reads(E):
         k = n.get("k")
         if k == "mem":
             if n.get("arrow"):
@@ -314,7 +463,7 @@ def _reads_pointer_memory(E, local_arrays):
 
 
 def _reads_deref(E, local_arrays):
-    for n in walk(E):
+    for n in _value_reads(E):
         k = n.get("k")
         if k == "un" and n.get("op") == "*":
             return True
@@ -379,6 +528,29 @@ def _call_exposed_vars(e):
     return out
 
 
+def _simplify(t):
+    """(&X)->f => X.f and *(&X) => X, in place below t."""
+    if isinstance(t, dict):
+        for kk, v in list(t.items()):
+            if isinstance(v, dict):
+                _simplify(v)
+                if v.get("k") == "mem" and v.get("arrow"):
+                    b = strip_casts(v.get("b"))
+                    if isinstance(b, dict) and b.get("k") == "un" and b.get("op") == "&":
+                        v["b"] = b["x"]
+                        v["arrow"] = False
+                elif v.get("k") == "un" and v.get("op") == "*":
+                    b = strip_casts(v.get("x"))
+                    if isinstance(b, dict) and b.get("k") == "un" and b.get("op") == "&":
+                        t[kk] = b["x"]
+            elif isinstance(v, list):
+                for j, x in enumerate(v):
+                    if isinstance(x, dict):
+                        h = {"_": x}
+                        _simplify(h)
+                        v[j] = h["_"]
+
+
 def inline_new_locals(jf, frozen_names):
     """Copy propagation of pure single definitions of locals that do not exist
     in the reference function."""
@@ -423,7 +595,8 @@ def inline_new_locals(jf, frozen_names):
             if not _pure(E) or t in vars_in(E):
                 continue
             def_at[(b["id"], i)] = len(defs)
-            defs.append((t, E, vars_in(E), fields_in(E), _reads_pointer_memory(E, local_arrays), _reads_deref(E, local_arrays)))
+            defs.append((t, E, vars_in(E), {n["f"] for n in _value_reads(E) if n.get("k") == "mem"},
+                         _reads_pointer_memory(E, local_arrays), _reads_deref(E, local_arrays)))
     if not defs:
         return []
 
@@ -503,6 +676,7 @@ def inline_new_locals(jf, frozen_names):
     def sub_key(e, kk, st):
         holder = {"_": e[kk]}
         subst(holder, st)
+        _simplify(holder)
         e[kk] = holder["_"]
 
     for bid, b in blocks.items():
@@ -520,6 +694,9 @@ def inline_new_locals(jf, frozen_names):
                         sub_key(e, "lhs", st)
                     elif strip_casts(e["lhs"]).get("k") != "var":
                         subst(e["lhs"], st)
+                        h = {"_": e["lhs"]}
+                        _simplify(h)
+                        e["lhs"] = h["_"]
             st = step(st, bid, i, e)
         if st and isinstance(b.get("term"), dict) and "cond" in b["term"]:
             sub_key(b["term"], "cond", st)
@@ -528,13 +705,67 @@ def inline_new_locals(jf, frozen_names):
 
 # --------------------------------------------------------------------------
 
+def rename_functions(facts, frozen):
+    """A function of the reference table that no longer exists, and a function
+    of the same file that is not in the table, with the same parameter type
+    list, unique on both sides: the function was renamed.  Renamed back (the
+    definition, every direct call and every address-of in the units that see
+    it)."""
+    cur = {}
+    for u in facts:
+        for jf in u["functions"]:
+            cur.setdefault(_fkey(jf), []).append(jf)
+    by_file_missing, by_file_new = {}, {}
+    for k, loc in frozen.items():
+        if k not in cur:
+            file, name = k.rsplit(":", 1)
+            by_file_missing.setdefault(file, []).append((name, tuple(x[2] for x in loc if x[0] == "param")))
+    for k, jfs in cur.items():
+        if k not in frozen:
+            jf = jfs[0]
+            by_file_new.setdefault(jf["file"], []).append((jf["name"], tuple(p["t"] for p in jf["params"])))
+    ren = {}
+    for file, miss in by_file_missing.items():
+        new = by_file_new.get(file, [])
+        for name, sig in miss:
+            cm = [n for n, s2 in new if s2 == sig]
+            cf = [n for n, s2 in miss if s2 == sig]
+            if len(cm) == 1 and len(cf) == 1:
+                ren[(file, cm[0])] = name
+    if not ren:
+        return []
+    by_new = {}
+    for (file, new), old in ren.items():
+        by_new.setdefault(new, []).append((file, old))
+    for u in facts:
+        local = {jf["name"]: jf for jf in u["functions"]}
+        names = {}
+        for new, lst in by_new.items():
+            if len(lst) == 1:
+                names[new] = lst[0][1]
+        for jf in u["functions"]:
+            if (jf["file"], jf["name"]) in ren:
+                jf["renamed_from"] = jf["name"]
+                jf["name"] = ren[(jf["file"], jf["name"])]
+        for jf in u["functions"]:
+            for b in jf["blocks"]:
+                for n in _walk_any(b):
+                    if (n.get("k") == "call" or n.get("e") == "call") and n.get("f") in names:
+                        n["f"] = names[n["f"]]
+                    elif n.get("k") == "fn" and n.get("n") in names:
+                        n["n"] = names[n["n"]]
+    return sorted((f, n, o) for (f, n), o in ren.items())
+
+
 def apply(facts):
     """Run on the raw facts before Function objects are built."""
     from .program import alpha_normalise
     frozen = frozen_locals()
-    report = {"renamed": [], "inlined_functions": [], "inlined_locals": []}
+    report = {"renamed": [], "inlined_functions": [], "inlined_locals": [], "renamed_functions": []}
     if not frozen:
         return report
+    if not any(jf.get("_normalised") for u in facts for jf in u["functions"]):
+        report["renamed_functions"] = rename_functions(facts, frozen)
     seen = set()
     for u in facts:
         for jf in u["functions"]:
